@@ -616,6 +616,11 @@ class MetaClass(object):
             if not kwargs:
                 continue
             
+            # null values (None, zero id, empty string) do not refer to anything
+            if any(self._is_null_value(name, referential_attributes[name])
+                   for name in link.key_map.values()):
+                continue
+            
             for other_inst in link.to_metaclass.query(kwargs):
                 relate(other_inst, inst, link.rel_id, link.phrase)
         
@@ -624,6 +629,22 @@ class MetaClass(object):
                 logger.warning('unable to assign %s to %s', name, inst)
                 
         return inst
+
+    def _is_null_value(self, name, value):
+        '''
+        Determine if a *value* is the null-value of the attribute *name*.
+        '''
+        if value is None:
+            return True
+        
+        ty = self.attribute_type(name)
+        if ty and ty.upper() == 'UNIQUE_ID':
+            return value == 0
+        
+        if ty and ty.upper() == 'STRING':
+            return len(value) == 0
+        
+        return False
 
     def clone(self, instance):
         '''
